@@ -234,4 +234,56 @@ theorem remove1_tree_matches_source (tg : String → Nat) (s : MStore) (p : Prop
     · simp [h0]
     · simp [h1, h0]
 
+/-! ### build hooks of the observation, proposal filterer, `orderedMap.Delete`, `Start` -/
+
+/-- `AddLogProposalsHook.RunHook`: the list is cut exactly under the source's `len(proposals) > limit` -/
+theorem cutTo_matches_source_log (limit : Nat) (l : List Proposal) :
+    cutTo limit l = if Gen.Src.c11LogHookCuts l.length limit then l.take limit else l := by
+  simp [cutTo, Gen.Src.c11LogHookCuts]
+
+/-- `AddConditionalProposalsHook.RunHook`: likewise, `len(conditionals) > limit` -/
+theorem cutTo_matches_source_cond (limit : Nat) (l : List Proposal) :
+    cutTo limit l = if Gen.Src.c11CondHookCuts l.length limit then l.take limit else l := by
+  simp [cutTo, Gen.Src.c11CondHookCuts]
+
+/-- both hooks: the only way out other than `return nil` at the end is the coordinator filter's error; cut or
+not, the hook returns `nil` after appending (the model's hook is total: the idle coordinator never fails) -/
+theorem hook_tree_matches_source (tooMany : Bool) :
+    Gen.Src.c11LogHookTree false tooMany = 2 ∧ Gen.Src.c11LogHookTreeNil1 2 = true ∧
+    Gen.Src.c11LogHookTree true tooMany = 1 ∧ Gen.Src.c11LogHookTreeNil1 1 = false ∧
+    Gen.Src.c11CondHookTree false tooMany = 2 ∧ Gen.Src.c11CondHookTreeNil1 2 = true ∧
+    Gen.Src.c11CondHookTree true tooMany = 1 ∧ Gen.Src.c11CondHookTreeNil1 1 = false := by
+  cases tooMany <;> decide
+
+/-- `proposalFilterer.PreProcess`, loop body: a payload is appended to the result exactly when its work id is
+not among the viewed proposals (`!ok` of the lookup in the flattened view) -/
+theorem filterPayloads_tree_matches_source (view ps : List Proposal) :
+    filterPayloads view ps =
+      ps.filter (fun p => Gen.Src.c11FiltererLoopTree (!(view.any (fun v => v.workID == p.workID))) == 1) ∧
+    Gen.Src.c11FiltererLoopTreeKind 1 = 4 ∧ Gen.Src.c11FiltererLoopTreeMark 1 = 1 := by
+  refine ⟨?_, rfl, rfl⟩
+  unfold filterPayloads
+  apply List.filter_congr
+  intro p _
+  cases h : view.any (fun v => v.workID == p.workID) <;> simp [Gen.Src.c11FiltererLoopTree]
+
+/-- `orderedMap.Delete`: no decision outside the search loop (nothing depends on sizes, capacities or on
+whether the key was found), and the loop removes the FIRST occurrence and stops (`break`) -/
+theorem delete_tree_matches_source (x key : String) (xs : List String) :
+    Gen.Src.c11DeleteTree = 0 ∧
+    (x :: xs).erase key = (if Gen.Src.c11DeleteLoopTree (x == key) = 1 then xs else x :: xs.erase key) ∧
+    Gen.Src.c11DeleteLoopTreeKind 1 = 3 := by
+  refine ⟨rfl, ?_, rfl⟩
+  rw [List.erase_cons]
+  cases h : x == key <;> simp [Gen.Src.c11DeleteLoopTree]
+
+/-- `metadataStore.Start`: refused with an error exactly when the running flag is set; otherwise the flag is
+set (the marked statement) — and nothing else is decided before the service loop -/
+theorem life_start_tree_matches_source (l : Life) :
+    l.start = (if Gen.Src.c11StartTree l.running = 1 then (l, false) else ({ running := true }, true)) ∧
+    Gen.Src.c11StartTreeNil1 1 = false ∧ Gen.Src.c11StartTreeKind 2 = 4 ∧ Gen.Src.c11StartTreeMark 2 = 1 := by
+  refine ⟨?_, rfl, rfl, rfl⟩
+  cases l with
+  | mk r => cases r <;> rfl
+
 end AutoVerif.C11
